@@ -95,6 +95,10 @@ def parse_fx(s):
             out.append({"kind": "patch", "node": f[1], "cidrs": parse_cidrs(f[2]), "raw": f[2], "out": f[3], "extra": f[4:]})
         elif f[0] == "updcc":
             out.append({"kind": "updcc", "name": f[1], "fins": [] if f[2] == "fins=-" else f[2][5:].split("+"), "rest": f[3][5:], "out": f[4]})
+        elif f[0] == "createcc" and len(f) == 8:
+            # the Create of the default ClusterCIDR at start-up: the object as the controller built it from its flags
+            out.append({"kind": "createcc", "name": f[1], "fins": [] if f[2] == "fins=-" else f[2][5:].split("+"),
+                        "v4": f[3][3:], "v6": f[4][3:], "hb": int(f[5][3:]), "sel": f[6][4:], "out": f[7]})
         elif f[0] == "ev":
             out.append({"kind": "ev", "code": f[1], "obj": f[2]})
         elif f[0] == "order":
@@ -187,6 +191,12 @@ class Trace:
                     out[f[1]] = {"v4": ptok(self.xmap.get(f[2], f[2])) if f[2] != "-" else None,
                                  "v6": ptok(self.xmap.get(f[3], f[3])) if f[3] != "-" else None,
                                  "hb": int(f[4]), "sel": f[5]}
+            # the default ClusterCIDR is the object the controller itself built from its flags and sent to the API at start-up
+            # (it is mapped whatever the outcome of that write)
+            for e in self.fx[i]:
+                if e["kind"] == "createcc" and (e["name"] not in out or e["name"] not in live):
+                    out[e["name"]] = {"v4": ptok(e["v4"]) if e["v4"] != "-" else None, "v6": ptok(e["v6"]) if e["v6"] != "-" else None,
+                                      "hb": e["hb"], "sel": "-" if e["sel"] == "-" else "?"}
         return out
 
 
@@ -302,9 +312,37 @@ def classify_c01(t, k, e, m, c2, how):
     return "association-dropped-while-held"
 
 
+def delseen_steps(t):
+    """ds[k]: names of the ClusterCIDRs whose deletion request the controller has processed before step k (a work item of the
+    object ran while the cached object carried a deletion timestamp); a name is forgotten when an object of that name is created"""
+    ds, delseen, fetched = [], set(), {}
+    for k, op in enumerate(t.ops):
+        f = op.split()
+        if f[0] == "cc+":
+            delseen.discard(f[1])
+        ds.append(set(delseen))
+        proc = None
+        if f[0] == "pc" and k > 0:
+            ready = t.q[k - 1].split("/")[2]
+            if ready != "-" and t.snap[k - 1] is not None:
+                proc = {c["name"]: c for c in t.cache[k - 1][1]}.get(ready.split(",")[0])
+        elif f[0] == "fc":
+            fetched[f[1]] = {c["name"]: c for c in t.cache[k][1]}.get(f[2])
+        elif f[0] == "runc" and f[1] in fetched:
+            proc = fetched.pop(f[1])
+            if t.snap[k - 1] is None:
+                proc = None
+        elif f[0] in ("crash", "construct"):
+            fetched = {}
+        if proc is not None and proc["deleting"]:
+            delseen.add(proc["name"])
+    return ds
+
+
 def mon_c02(t):
     bad = []
     fetched = {}
+    ds = delseen_steps(t)
     for k, node, stale in sync_ops(t):
         for e in t.fx[k]:
             if e["kind"] != "patch":
@@ -325,7 +363,9 @@ def mon_c02(t):
                 blocks = all(blocks_ok(c, sp) for c in e["cidrs"])
                 selok = sel_matches(sp["sel"], labels)
                 before = [en for en in (t.snap[k - 1] or []) if en["name"] == nm]
-                live = bool(before) and not all(en["term"] for en in before)
+                # eligible: mapped, not marked terminating, and -- whatever the controller's own mark says -- its deletion request
+                # has not been processed yet
+                live = bool(before) and not all(en["term"] for en in before) and nm not in ds[k]
                 if shape and blocks and selok and live:
                     ok_any = nm
                     break
@@ -587,15 +627,20 @@ def mon_c10(t):
     gone = set()
     finalized = set()    # names whose object got the finalizer through a write of the controller itself (this object incarnation)
     inflight, e3, fobj = {}, set(), {}
+    released = set()     # names from whose deleting object the controller itself took its finalizer off: its part of the deletion is done
     for k, op in enumerate(t.ops):
         f = op.split()
         if f[0] == "cc+":
             gone.discard(f[1])
             if k > 0 and f[1] not in {c["name"] for c in t.api[k - 1][1]}:
                 finalized.discard(f[1])
+                released.discard(f[1])
         for e in t.fx[k]:
             if e["kind"] == "updcc" and "OURS" in e["fins"] and e["out"] in ("ok", "aerr"):
                 finalized.add(e["name"])
+            if e["kind"] == "updcc" and "OURS" not in e["fins"] and e["out"] in ("ok", "aerr") and k > 0 \
+                    and any(c["name"] == e["name"] and c["deleting"] and "OURS" in c["fins"] for c in t.api[k - 1][1]):
+                released.add(e["name"])
         # E3: a work queue never hands one key to two workers at once.  The op alphabet can express such schedules (a fetched
         # item in flight while the same key is processed from the queue); what they produce is not held against the controller
         runkey, fetched_obj = None, None
@@ -641,6 +686,12 @@ def mon_c10(t):
         for nm, c in count.items():
             if c > 1:
                 bad.append({"step": k, "clause": "a ClusterCIDR contributes more than one pool", "detail": "%s has %d entries" % (nm, c), "cls": "duplicate-entry"})
+        # once the controller has completed its part of a deletion (finalizer taken off the deleting object) the ClusterCIDR
+        # contributes no pool, however often the object -- kept alive by somebody else's finalizer -- is handled again
+        for en in t.snap[k]:
+            if en["name"] in released and en["name"] not in e3 and not en["term"]:
+                bad.append({"step": k, "clause": "a ClusterCIDR whose deletion the controller completed contributes a pool again",
+                            "detail": "%s mapped as usable at step %d (%s)" % (en["name"], k, op), "cls": "remapped-after-release"})
         # after its deletion completed (object gone and the notification processed: idle) it contributes none
         if idle(t, k):
             live = {en["name"] for en in t.snap[k] if not en["term"]}
